@@ -70,6 +70,7 @@ Section Derivative.
       when a key is a function of the state (a surrogate output: Witness.w4) *)
   Theorem jacobian_is_derivative_table F m eqs env names :
     table_names F m = Some names ->
+    stat_view F m = Some m ->
     to_symbolic fsym F m = SymOk eqs -> Resolved fsem m env ->
     forall i j vi xj, nth_error (m_vars m) i = Some vi -> nth_error (m_vars m) j = Some xj ->
     exists row d, nth_error (jacobian sdiff eqs (m_vars m)) i = Some row /\ nth_error row j = Some d /\
@@ -78,14 +79,14 @@ Section Derivative.
           (forall n, In n names -> env' n == upd env xj (env xj + h) n) ->
           Qabs (num_rhs fsem m env' vi - num_rhs fsem m env vi - h * eval env d) <= B * (h * h).
   Proof.
-    intros Hnames Hconv Hres i j vi xj Hi Hj.
-    pose proof (to_symbolic_sound fsym fsem fsym_sound fsem_proper env F m eqs Hres Hconv) as Hs.
+    intros Hnames Hview Hconv Hres i j vi xj Hi Hj.
+    pose proof (to_symbolic_sound fsym fsem fsym_sound fsem_proper env F m eqs Hview Hres Hconv) as Hs.
     destruct (Forall2_nth _ _ _ i vi Hs Hi) as [e [He Hev]].
     destruct (jacobian_layout sdiff eqs (m_vars m) i j e xj He Hj) as [row [Hrow Hd]].
     exists row, (sdiff xj e). split; [exact Hrow|]. split; [exact Hd|].
     destruct (D_is_derivative xj env e) as [B [HB Hb]].
     exists B. split; [exact HB|]. intros h env' Hh Hres' Hagree.
-    pose proof (to_symbolic_sound fsym fsem fsym_sound fsem_proper env' F m eqs Hres' Hconv) as Hs'.
+    pose proof (to_symbolic_sound fsym fsem fsym_sound fsem_proper env' F m eqs Hview Hres' Hconv) as Hs'.
     pose proof (Forall2_nth_both _ _ _ i e vi Hs' He Hi) as Hev'. cbn beta in Hev'.
     assert (Hsy : incl (syms e) names).
     { destruct (to_symbolic_syms_table fsym fsym_syms F m eqs Hconv) as [names' [E Hin]].
@@ -97,6 +98,7 @@ Section Derivative.
 
   Theorem jacobian_is_derivative F m eqs env :
     sf_symtab F = SymVarsParsData ->
+    stat_view F m = Some m ->
     to_symbolic fsym F m = SymOk eqs -> Resolved fsem m env ->
     forall i j vi xj, nth_error (m_vars m) i = Some vi -> nth_error (m_vars m) j = Some xj ->
     exists row d, nth_error (jacobian sdiff eqs (m_vars m)) i = Some row /\ nth_error row j = Some d /\
